@@ -25,7 +25,7 @@ func strOrList(t *rapid.T, label string, items []string) Node {
 	return l
 }
 
-var words = []string{"line\n", "two\nlines\n", "\nlead", "alpha", "beta", "x y", "with \"quote\"", "üñí", "a=b", "semi;colon", "", "tab\there", "123", "true", "no", "1e3", "0x10", "~", "null"}
+var words = []string{"line\n", "two\nlines\n", "\nlead", "alpha", "beta", "x y", "with \"quote\"", "üñí", "a=b", "semi;colon", "", "tab\there", "123", "true", "no", "1e3", "0x10", "~", "null", "rocket🚀", "𝔘nicode beyond the BMP"}
 
 func word(t *rapid.T, label string) string { return rapid.SampledFrom(words).Draw(t, label) }
 
